@@ -17,10 +17,26 @@ flipped one at a time.  Compile options: default, literal_binds, render_postcomp
 for_executemany (DML).
 
 Oracle (as the property states it): the outcome is success, CompileError / UnsupportedCompilationError,
-InvalidRequestError or ArgumentError (and subclasses).  Anything else is a violation keyed by exception type and
-the innermost SQLAlchemy frame.
+InvalidRequestError or ArgumentError (and subclasses), or a NotImplementedError that carries an explanation (the
+deliberate "this backend does not support ..." refusals; a bare NotImplementedError() is an abstract method reached by
+accident).  Anything else is a violation keyed by exception type and the innermost SQLAlchemy frame:
+``internal <Exception> in <file>:<function>``; the replay case holds the first (simplest) construct / dialect variant /
+option that reaches it.
 
-MUTATIONS
+The product is deviation-bounded: every construct meets every dialect variant under default compile options, and
+every non-default compile option under the default dialect of each backend; the cases only the thorough tier adds
+meet the default / driver / paramstyle / server-version variants (not the single-flag flips).
+
+Mutations caught (each alone in a private copy, ``VF_REPO=/tmp/wt-stmt1 ./check C22 --no-evidence``; the clean tree
+gives the 4 reported signatures, each mutation one more):
+  X1  dialects/sqlite/base.py visit_on_conflict_do_update: self.stack[-1] -> self.stack[0] (assumes a top-level INSERT)
+      -> internal AttributeError in dialects/sqlite/base.py:visit_on_conflict_do_update (upsert nested as CTE)
+  X2b sql/compiler.py visit_textual_select: "self._default_stack_entry if toplevel else" dropped
+      -> internal IndexError in sql/compiler.py:visit_textual_select
+  X3  dialects/mysql/base.py visit_cast(self, cast, **kw) -> visit_cast(self, cast) (signature drift) -> internal TypeError
+  X4  dialects/mysql/base.py visit_create_index: "if col.name in length" -> "if col.name" -> internal KeyError
+Not caught, equivalent for every standard EXTRACT field: mssql visit_extract ``extract_map.get(f, f)`` -> ``extract_map[f]``
+(all fields the constructs use are in the map).
 """
 from __future__ import annotations
 
